@@ -16,6 +16,6 @@ PROP = {
 
 TEXT = {
     "technique": "stateful property-based testing: plan/unplan/exec histories with generated callback scripts; every callback invocation is validated against a reference scheduler (planned, due, earliest deadline) and the full timer state is compared after every operation; watchdog for termination; libFuzzer in thorough",
-    "level": "Generated-history exploration: histories of up to 80 operations over up to 6 igris::timer objects (delegate callbacks) with plan(t,start,interval) drawn from few distinct intervals so deadlines collide, plan(t), unplan, exec(now) with non-decreasing time (steps 0, 1, interval-1, interval, interval+1, many periods) and per-timer callback scripts (do nothing, unplan self, unplan another, re-plan self with new parameters, plan another timer already due / not yet due). Each invocation must be of a planned, due timer with the earliest deadline among the planned ones, deadlines within one exec must not decrease, after exec no planned timer may be due, and is_planned, finish() (re-arming at previous deadline + interval, one firing per elapsed period), empty() and minimal_interval() must equal the reference after every operation. The order among equal deadlines is left free (a LIFO-among-equals mutant is accepted, as the statement allows). The flag-style stimer is checked against the due rule and the one-period-per-hit behaviour of STIMER_PERIODIC. Nothing is established beyond the explored histories. A further target instantiates the manager over timer_spec<int64_t,int32_t> (clocks beyond 2^31), timer_spec<int32_t> and timer_spec<int64_t,int64_t>.",
+    "level": "Generated-history exploration: histories of up to 80 operations over up to 6 igris::timer objects (delegate callbacks) with plan(t,start,interval) drawn from few distinct intervals so deadlines collide, plan(t), unplan, exec(now) with non-decreasing time (steps 0, 1, interval-1, interval, interval+1, many periods) and per-timer callback scripts (do nothing, unplan self, unplan another, re-plan self with new parameters, plan another timer already due / not yet due). Each invocation must be of a planned, due timer with the earliest deadline among the planned ones, deadlines within one exec must not decrease, after exec no planned timer may be due, and is_planned, finish() (re-arming at previous deadline + interval, one firing per elapsed period), empty() and minimal_interval() must equal the reference after every operation. The order among equal deadlines is left free (a LIFO-among-equals mutant is accepted, as the statement allows). The flag-style stimer is checked against the due rule and the one-period-per-hit behaviour of STIMER_PERIODIC. Nothing is established beyond the explored histories. A further target instantiates the manager over timer_spec<int64_t,int32_t> (clocks beyond 2^31), timer_spec<int32_t> and timer_spec<int64_t,int64_t>. A further target binds callbacks as plain function, function with (null) context and member function with a std::string argument and checks every firing's context and arguments.",
     "note": "Trusted: the harness' reference scheduler; a callback that re-plans itself is 'left planned' and is shifted once more by exec (observed and adopted, DESIGN.md C16); callbacks stop acting after 8 actions per exec so that mutually re-planning scripts cannot keep a scheduler busy for ever; single-threaded (the syslock around the list is exercised by C20).",
 }
